@@ -69,6 +69,26 @@ def work(v):
             os.replace = os.rename = die
             pathlib.Path.replace = pathlib.Path.rename = die
             shutil.move = die
+        elif inj[0] == "after-rename":
+            # the save ran to its last file operation; the process dies right after it (before anything that only
+            # happens when the function returns / the interpreter cleans up)
+            import pathlib
+            real_os_replace, real_os_rename = os.replace, os.rename
+
+            def replace_then_die(*a, **k):
+                real_os_replace(*a, **k)
+                os.kill(os.getpid(), signal.SIGKILL)
+
+            def rename_then_die(*a, **k):
+                real_os_rename(*a, **k)
+                os.kill(os.getpid(), signal.SIGKILL)
+
+            def path_replace_then_die(self, target):
+                real_os_replace(self, target)
+                os.kill(os.getpid(), signal.SIGKILL)
+
+            os.replace, os.rename = replace_then_die, rename_then_die
+            pathlib.Path.replace = pathlib.Path.rename = path_replace_then_die
     return res
 
 
@@ -255,8 +275,15 @@ def ops_of(n: int) -> list:
     return _OPS_CACHE[n]
 
 
+def ncuts(ops: list) -> int:
+    """number of kill points of one save: before each file operation, and after the last one when that is the rename"""
+    return len(ops) + (1 if ops and ops[-1] == "rename" else 0)
+
+
 def injection(ops: list, c: int):
     """the real fault that kills the process just before file operation number c (0-based) of the save"""
+    if c == len(ops) and ops and ops[-1] == "rename":
+        return ["after-rename"]  # every file operation done, killed before the save returns
     if c >= len(ops):
         return None
     k = ops[c]
@@ -426,8 +453,8 @@ def gen_cases(ctx):
         for pos in range(3):
             others = [("int", 0), ("str", 12)]
             specs = others[:pos] + [spec] + others[pos:]
-            for c in range(nops):  # c = nops would be "not killed at all"
-                if pos != 1 and ctx.tier != "thorough" and n > 150 and c % 3:
+            for c in range(ncuts(ops_of(n))):  # c = nops: killed right after the last file operation (the rename)
+                if pos != 1 and ctx.tier != "thorough" and n > 150 and c % 3 and c != nops:
                     continue  # quick tier: every offset with the victim in the middle, every third at the ends
                 cases.append(seq_case(cid, specs, pos, c))
                 cid += 1
@@ -443,14 +470,14 @@ def gen_cases(ctx):
                 idx = rng.randrange(nk)
                 k, vid, spec = keys[idx]
                 ops = ops_of(psize(vid, spec))
-                c = rng.randrange(len(ops))
+                c = rng.randrange(ncuts(ops))
                 script.append(["seqcrash", {k: injection(ops, c)}, 0, {k: c}])
             else:
                 injs, cs = {}, {}
                 for idx in rng.sample(range(nk), rng.randint(1, min(3, nk))):
                     k, vid, spec = keys[idx]
                     ops = ops_of(psize(vid, spec))
-                    c = rng.randrange(len(ops))
+                    c = rng.randrange(ncuts(ops))
                     injs[k], cs[k] = injection(ops, c), c
                 script.append(["poolcrash", injs, rng.choice([2, 2, 16]), cs])
         script.append(["run", rng.choice([0, 2, 16])])
@@ -729,7 +756,7 @@ def names_stratum(ctx):
         ctx.count(case, f"name:{kind}")
         R = {"final": list(name.encode("utf-8")), "decodes_to_repr": unquote(name[:-2]) == repr(k), "alphabet": bool(pat.fullmatch(name))}
         S = {"final": list((hand_quote(repr(k)) + ".p").encode()), "decodes_to_repr": True, "alphabet": True}
-        M = None if m is None else {"final": m["final"], "decodes_to_repr": bytes(m["decoded"]) == repr(k).encode("utf-8"),
+        M = None if m is None else {"final": m["final"], "decodes_to_repr": m["decoded"] == list(repr(k).encode("utf-8")),
                                     "alphabet": bool(m["safe"]) and bool(m["partsOk"])}
         ctx.judge(case, R, S, M, what="file name of a key: percent-encoded repr + '.p', byte for byte")
     ctx.extra_cov["name_kinds"] = dict(sorted(hist.items()))
